@@ -589,6 +589,25 @@ pub fn check_project(p: &Project, opts: &CheckOpts, dir: &Path, t: &mut Tape) ->
                 st.multi_locale_sig += 1;
             }
 
+            // the grouping the code generator uses must be the same fallback relation
+            {
+                let computed = loaded.computed_defaults(nsr, path).unwrap_or_default();
+                let mut model: BTreeMap<String, String> = BTreeMap::new();
+                for loc in &p.locales {
+                    let (eff, _) = &per_locale[loc];
+                    if eff != loc {
+                        model.insert(loc.clone(), eff.clone());
+                    }
+                }
+                st.observations += 1;
+                if computed != model {
+                    return Err(fail(
+                        "defaults-grouping-mismatch",
+                        json!({"key": path, "namespace": ns, "expected": model, "actual": computed, "project": ser::project_to_json(p)}),
+                    ));
+                }
+            }
+
             if opts.check_signature {
                 let iol = loaded.interpol_at(nsr, path);
                 let Some(iol) = iol else {
